@@ -17,6 +17,16 @@ def F3(v):
 def directions(rng, n):
     out = [(0.0, 0.0), (0.0, 90.0), (0.0, -90.0), (359.9999999, 0.0), (180.0, 0.0), (90.0, 0.0), (270.0, 45.0),
            (123.0, 89.999), (10.0, -89.999), (0.0, 89.9999999), (45.0, 1e-9)]
+    # directions whose image has longitude 0 in one of the target frames (the seam of the OUTPUT longitude): the galactic
+    # prime meridian (through the library's own inverse), the vernal direction, the meridian / north point
+    try:
+        from pymeeus.Angle import Angle
+        from pymeeus.Coordinates import galactic2equatorial
+        for b in (-60.0, -30.0, 0.0, 30.0, 60.0):
+            ra, de = galactic2equatorial(Angle(0.0), Angle(b))
+            out.append((float(ra), float(de)))
+    except Exception:
+        pass
     while len(out) < n:
         r = rng.random()
         if r < 0.6:
@@ -109,6 +119,8 @@ def gen_sep(seed, shard, n):
             s = 10 ** rng.uniform(-7, -2)
             th = rng.uniform(0, 2 * math.pi)
             a2, d2 = a1 + s * math.cos(th) / max(0.02, math.cos(math.radians(d1))), d1 + s * math.sin(th)
+        elif kind < 0.38:   # nearly on one hour circle, a fraction of a degree to a few degrees apart
+            a2, d2 = a1 + rng.choice([0.0, 5e-11, -5e-11, 9e-11, 3e-10, -2e-9]), d1 + rng.choice([1, -1]) * rng.uniform(0.06, 5.0)
         elif kind < 0.45:   # nearly antipodal
             a2, d2 = a1 + 180.0 + rng.uniform(-1e-3, 1e-3), -d1 + rng.uniform(-1e-3, 1e-3)
         else:
